@@ -92,7 +92,7 @@ def export(run_dir, version, mode='recover', env='tokenv', hist=False, maxtok=5,
             rep[tuple(m)] = tuple(c['rep'])
     pb['scripts'] = [[tid[rep[tuple(l)]] for l in sc] for sc in (scripts or [])]
     os.makedirs(run_dir, exist_ok=True)
-    tlc.prepare(run_dir, ['Ebnf', 'Conform', 'ParserB'], {'gs.json': pgen_export.to_json([rec]), 'pb.json': json.dumps(pb)})
+    tlc.prepare(run_dir, ['Ebnf', 'Conform', 'TokEnv', 'ParserB'], {'gs.json': pgen_export.to_json([rec]), 'pb.json': json.dumps(pb)})
     return {'classes': classes, 'labels': labels, 'rec': rec, 'pb': pb, 'tid': tid}
 
 
@@ -352,7 +352,7 @@ def behaviours(run_dir, version, env, mode='recover', num=300, depth=24, closeat
 # --------------------------------------------------------------------------------------------
 # arc cover: sentences that together use every arc of every DFA reachable from the start rule
 # --------------------------------------------------------------------------------------------
-def arc_cover(rec, start='file_input'):
+def arc_cover(rec, start='file_input', two_level=False):
     """rec: exported grammar record (rules with dfa arcs).  Returns (sentences, n_arcs): each sentence is a list of
     [kind, value] token labels ending in ENDMARKER where the start rule consumes it."""
     rules = {r['name']: r['dfa'] for r in rec['rules']}
@@ -439,4 +439,34 @@ def arc_cover(rec, start='file_input'):
                 if key not in seen:
                     seen.add(key)
                     sentences.append(sent)
+    if not two_level:
+        return sentences, n_arcs
+    # 4. two-level cover: every arc of a rule in the context of EVERY place the rule is used (not only the shortest)
+    for p, (pre_p, suf_p) in ctx.items():
+        dfa = rules[p]
+        for k, st in enumerate(dfa, 1):
+            head_p = shortest_from(p, 1, target=k)
+            if head_p is None:
+                continue
+            for lab, tgt in st['arcs']:
+                if not is_nt(lab) or lab[2] not in rules:
+                    continue
+                tail_p = shortest_from(p, tgt)
+                if tail_p is None:
+                    continue
+                child = lab[2]
+                for ck, cst in enumerate(rules[child], 1):
+                    chead = shortest_from(child, 1, target=ck)
+                    if chead is None:
+                        continue
+                    for clab, ctgt in cst['arcs']:
+                        mid = best.get(clab[2]) if is_nt(clab) else [[clab[0], clab[2]]]
+                        ctail = shortest_from(child, ctgt)
+                        if mid is None or ctail is None:
+                            continue
+                        sent = pre_p + head_p + chead + mid + ctail + tail_p + suf_p
+                        key = json.dumps(sent)
+                        if key not in seen:
+                            seen.add(key)
+                            sentences.append(sent)
     return sentences, n_arcs
